@@ -111,7 +111,7 @@ def rand_view(rng, n, allow_const=True, depth=1):
         else: base = "prev(%s)" % base
     return base
 
-BASIC_KINDS = ["add", "sub", "leq", "lt", "geq", "gt", "eq", "sum", "lineq", "linle", "linne", "lineqr", "linler", "linner"]
+BASIC_KINDS = ["add", "sub", "leq", "lt", "geq", "gt", "eq", "neq", "sum", "lineq", "linle", "linne", "lineqr", "linler", "linner"]
 
 GLOBAL_KINDS = plevel_global.KINDS
 LOGIC_KINDS = plevel_logic.KINDS
@@ -131,7 +131,7 @@ def rand_prop(rng, n, kinds=BASIC_KINDS, bools=()):
     xv = lambda: "x%d" % rng.randrange(n)
     if k in ("add", "sub"):
         return "%s %s %s %s" % (k, rand_view(rng, n), rand_view(rng, n), xv())
-    if k in ("leq", "lt", "geq", "gt", "eq"):
+    if k in ("leq", "lt", "geq", "gt", "eq", "neq"):
         return "%s %s %s" % (k, rand_view(rng, n), rand_view(rng, n))
     if k == "sum":
         m = rng.randint(0, 3)
